@@ -127,6 +127,10 @@ func (p *Program) newEffects() *effects {
 						if _, isMC := ins.(*ssa.MakeClosure); isMC {
 							continue
 						}
+						// merged into a local function variable that is only ever called
+						if phi, isPhi := ins.(*ssa.Phi); isPhi && onlyCalled(phi, map[ssa.Value]bool{}) {
+							continue
+						}
 						// stored into a struct field: callable only through loads of that field
 						if st, isStore := ins.(*ssa.Store); isStore && st.Val == *op {
 							if fa, ok := st.Addr.(*ssa.FieldAddr); ok {
@@ -148,6 +152,15 @@ func (p *Program) newEffects() *effects {
 				if !ok || ci.Common().IsInvoke() || ci.Common().StaticCallee() != nil {
 					continue
 				}
+				// a local function variable (phi of named functions)
+				if phi, isPhi := ci.Common().Value.(*ssa.Phi); isPhi {
+					for _, t := range phiFuncs(phi, map[ssa.Value]bool{}) {
+						if ef.inLib[t] {
+							ef.callers[t] = append(ef.callers[t], ci)
+						}
+					}
+					continue
+				}
 				if fv := fieldLoadVar(ci.Common().Value); fv != nil {
 					for _, target := range ef.fieldFns[fv] {
 						ef.callers[target] = append(ef.callers[target], ci)
@@ -157,6 +170,48 @@ func (p *Program) newEffects() *effects {
 		}
 	}
 	return ef
+}
+
+// onlyCalled: every use of the phi is as the callee of a call (or another such phi).
+func onlyCalled(phi *ssa.Phi, seen map[ssa.Value]bool) bool {
+	if seen[phi] {
+		return true
+	}
+	seen[phi] = true
+	for _, ref := range *phi.Referrers() {
+		switch r := ref.(type) {
+		case ssa.CallInstruction:
+			if r.Common().Value != ssa.Value(phi) {
+				return false
+			}
+		case *ssa.Phi:
+			if !onlyCalled(r, seen) {
+				return false
+			}
+		case *ssa.DebugRef:
+		default:
+			return false
+		}
+	}
+	return true
+}
+
+// phiFuncs: the named functions a phi of function values can be.
+func phiFuncs(phi *ssa.Phi, seen map[ssa.Value]bool) []*ssa.Function {
+	if seen[phi] {
+		return nil
+	}
+	seen[phi] = true
+	var out []*ssa.Function
+	for _, e := range phi.Edges {
+		switch v := e.(type) {
+		case *ssa.Function:
+			out = append(out, v)
+		case *ssa.Phi:
+			out = append(out, phiFuncs(v, seen)...)
+		}
+	}
+	return out
 }
 
 func fieldVarOf(fa *ssa.FieldAddr) *types.Var {
